@@ -26,13 +26,15 @@ inline T log2(T const x)
 {
   static_assert(std::is_unsigned_v<T>, "log2 can only be used on unsigned types");
 
-  T r(1);
+  T r(0);
 
-  while ((x >> r) != 0)
+  // Shift one bit at a time: shifting by r directly would shift by the full
+  // width of T (undefined behaviour) once the most significant bit of x is set.
+  for (T rest(static_cast<T>(x >> 1)); rest != 0; rest = static_cast<T>(rest >> 1))
   {
     ++r;
   }
-  return --r;
+  return r;
 }
 
 }
